@@ -469,11 +469,18 @@ theorem C07_register_extends (fuel : Nat) (raw : RawSchema) (enc : Option String
 
 /-- A reference, registered at any point (state `st`), in a document whose registration ends in
     state `stF` where its fullname is bound to node `i`: after late resolution the child key is
-    `i` — whether the definition came before the reference (`.idx`) or after it (`.pending`). -/
+    `i` — whether the definition came before the reference (`.idx`) or after it (`.pending`).
+
+    `hle : st1.LeNU stF` (bindings persist, pending references are appended) is what relates the
+    state in which a NESTED reference was registered to the FINAL state of the document: it follows
+    from `C07_register_extends` for every later complete call (`PState.Le.toLeNU`), is not disturbed
+    by the completion of the enclosing nodes (`PState.LeNU.nodes`, `registerObject_inner`,
+    `registerUnion_inner`) and is transitive.  (The former hypothesis `st1.Le stF` is false for the
+    final state: the placeholder slots of the enclosing nodes are overwritten.) -/
 theorem C07_order_independent_ref (fuel : Nat) (r : String) (enc : Option String)
     (st st1 stF : PState) (k : PKey) (i : Nat)
     (h : registerNode (fuel + 1) (.ref r) enc st = .ok (k, st1))
-    (hle : st1.Le stF)
+    (hle : st1.LeNU stF)
     (hdef : stF.names.lookup (refKey r enc) = some i) :
     resolveKey stF k = i := by
   simp only [registerNode] at h
@@ -495,7 +502,7 @@ theorem C07_order_independent_ref (fuel : Nat) (r : String) (enc : Option String
 theorem C07_forward_ref_eq_late_lookup (fuel : Nat) (r : String) (enc : Option String)
     (st st1 stF : PState) (j i : Nat)
     (h : registerNode (fuel + 1) (.ref r) enc st = .ok (.pending j, st1))
-    (hle : st1.Le stF)
+    (hle : st1.LeNU stF)
     (hdef : stF.names.lookup (refKey r enc) = some i) :
     resolveKey stF (.pending j) = i ∧
     registerNode (fuel + 1) (.ref r) enc stF = .ok (.idx i, stF) := by
@@ -507,7 +514,7 @@ theorem C07_forward_ref_eq_late_lookup (fuel : Nat) (r : String) (enc : Option S
 theorem C07_backward_ref_stable (fuel : Nat) (r : String) (enc : Option String)
     (st st1 stF : PState) (i : Nat)
     (h : registerNode (fuel + 1) (.ref r) enc st = .ok (.idx i, st1))
-    (hle : st1.Le stF) :
+    (hle : st1.LeNU stF) :
     stF.names.lookup (refKey r enc) = some i := by
   simp only [registerNode] at h
   split at h
@@ -517,7 +524,7 @@ theorem C07_backward_ref_stable (fuel : Nat) (r : String) (enc : Option String)
     exact hle.names _ _ hl
   · simp at h
 
-/-- A definition binds its fullname to its own node index (and, by `PState.Le.names`, the
+/-- A definition binds its fullname to its own node index (and, by `PState.LeNU.names`, the
     binding is never changed afterwards): so a reference whose fullname (per the specification)
     equals that of the definition resolves to the definition's node. -/
 theorem C07_def_binds (fuel : Nat) (t : RawType) (o : RawAttrs) (name : String)
@@ -537,15 +544,40 @@ theorem C07_def_binds (fuel : Nat) (t : RawType) (o : RawAttrs) (name : String)
     rw [hnames]
     simp
 
-/-- A node written during registration is still there at the end (later registration only
-    appends), so the preservation statements of section 4 hold of the final node vector. -/
-theorem C07_node_stable (st' stF : PState) (hle : st'.Le stF) (i : Nat) (n : PNode)
-    (hn : st'.nodes[i]? = some n) : stF.nodes[i]? = some n := by
+/-- A node written during registration is still there at the end, so the preservation statements
+    of section 4 hold of the final node vector — provided its slot `i` is not one of the slots
+    `op` that are still placeholders in `st'` (those of the nodes that ENCLOSE the node just
+    completed: they are overwritten when their own registration completes).  `st'.LeExcept op stF`
+    holds between the state after any complete nested call and the final state, with `op` the
+    slots of the enclosing nodes (`PState.Le.toLeExcept`, `PState.LeExcept.trans`,
+    `registerObject_inner`, `registerUnion_inner`); with `op = []` it is `st'.Le stF`. -/
+theorem C07_node_stable (op : List Nat) (st' stF : PState) (hle : st'.LeExcept op stF) (i : Nat)
+    (n : PNode) (hop : i ∉ op) (hn : st'.nodes[i]? = some n) : stF.nodes[i]? = some n := by
   have hi : i < st'.nodes.size := by
     cases Nat.lt_or_ge i st'.nodes.size with
     | inl h => exact h
     | inr h => rw [Array.getElem?_eq_none h] at hn; cases hn
-  rw [hle.nodes i hi, hn]
+  rw [hle.nodes i hi hop, hn]
+
+/-- The form for a state related by `Le` (a complete later call, `C07_register_extends`). -/
+theorem C07_node_stable_le (st' stF : PState) (hle : st'.Le stF) (i : Nat) (n : PNode)
+    (hn : st'.nodes[i]? = some n) : stF.nodes[i]? = some n :=
+  C07_node_stable [] st' stF hle.toLeExcept i n (by simp) hn
+
+/-- The node a complete call `registerObject … st = (k, st')` wrote in its own slot
+    `st.nodes.size` survives the completion of every enclosing node: if the enclosing object
+    registered it in its body (state `stB` at the end of the body, `st'.Le stB`), it is in the
+    enclosing object's final state `stE` too. -/
+theorem C07_node_survives_enclosing {fuel t object ofields oitems ovalues enc} {stO : PState} {kE stE}
+    (hE : registerObject (fuel + 1) t object ofields oitems ovalues enc stO = .ok (kE, stE))
+    (st' : PState) (i : Nat) (n : PNode) (hi : i ≠ stO.nodes.size)
+    (hn : st'.nodes[i]? = some n)
+    (hbody : ∀ nk st1 ty st2, nameStep object enc stO = .ok (nk, st1) →
+      bodyStep fuel t object ofields oitems ovalues enc nk st1 = .ok (ty, st2) → st'.Le st2) :
+    stE.nodes[i]? = some n := by
+  obtain ⟨nk, st1, ty, st2, hn1, hb, hin⟩ := registerObject_inner hE
+  exact C07_node_stable _ st' stE (hin [] st' (hbody nk st1 ty st2 hn1 hb).toLeExcept) i n
+    (by simpa using hi) hn
 
 
 /-! ### 3b. Records that unconditionally contain themselves -/
